@@ -213,9 +213,9 @@ def systematic_blocks(p_mod: int = 1, p_rot: int = 0) -> Tuple[List[dict], Dict[
 
 _SYS: Dict[tuple, tuple] = {}
 
-# quick tier runs 1/P_MOD_QUICK of the cross-area block P (which sixteenth rotates with VERIF_SEED);
+# quick tier runs 1/P_MOD_QUICK of the cross-area block P (which part rotates with VERIF_SEED);
 # the thorough tier runs all of it
-P_MOD_QUICK = 48
+P_MOD_QUICK = 96
 # random histories interleaved 1:1 with block P (the rest of the longer one follows)
 RANDOM_PER_TIER = {"quick": 1500, "thorough": 150000}
 
